@@ -106,6 +106,26 @@ def check(pid: str, tier: str, only: str | None = None, verbose: bool = False) -
                 nonrepro.append({"unit": u["id"], "inputs": r["cex"], "native_result": out,
                                  "message": r.get("message", "")[:300]})
 
+    # ---- paths CrossHair abandoned on its time limit: a native replay that does not return within 60 s is a hang
+    hang_units = []
+    for u in decide:
+        r = res.get(u["id"], {})
+        for k, inp in enumerate((r.get("abandoned") or [])[:4]):
+            hang_units.append((u, inp, _mk(u, id=f"hang:{u['id']}:{k}", mode="native", inputs=[inp], hard_timeout=60)))
+    if hang_units:
+        hres = run_units([h[2] for h in hang_units])
+        for u, inp, hu in hang_units:
+            hr = hres.get(hu["id"], {})
+            native_runs += 1
+            if hr.get("status") == "TIMEOUT":
+                rec = {"property": pid, "unit": {k: u[k] for k in ("id", "module", "fn", "params") if k in u}, "replay_fn": None,
+                       "inputs": inp, "native_result": "TIMEOUT", "message": "path abandoned by the engine on its time limit; native replay did not return within 60 s"}
+                d = os.path.join(os.environ.get("VP_REPLAY_DIR") or os.path.join(ROOT, "replays"), pid)
+                os.makedirs(d, exist_ok=True)
+                path = os.path.join(d, sha(rec["unit"] | {"i": rec["inputs"]}) + ".json")
+                json.dump(rec, open(path, "w"), indent=1)
+                violations.append((u, path, rec))
+
     # a non-reproducing inductive counterexample (unreachable pre-state) is inconclusive, not a violation
     for n in nonrepro:
         if n["native_result"] == "EXC:LookupError":
